@@ -2,8 +2,8 @@ package main
 
 import (
 	"fmt"
-	"os"
 	"math/big"
+	"os"
 	"strings"
 	"time"
 
@@ -32,37 +32,39 @@ type weights struct {
 }
 
 var focusWeights = map[string]weights{
-	"mixed":  {8, 10, 3, 6, 14, 5, 6, 8, 4, 3, 3, 5, 3, 4, 2, 2, 5, -1, 1, 0, true},
-	"ent":    {14, 22, 6, 3, 6, 1, 1, 1, 0, 0, 0, 3, 1, 2, 1, 1, 4, -1, 0, 0, true},
-	"entgov": {12, 30, 3, 0, 0, 0, 0, 0, 0, 0, 0, 1, 0, 0, 0, 0, 2, 0, 0, 0, true},
+	"mixed":   {8, 10, 3, 6, 14, 5, 6, 8, 4, 3, 3, 5, 3, 4, 2, 2, 5, -1, 1, 10, true},
+	"ent":     {14, 22, 6, 3, 6, 1, 1, 1, 0, 0, 0, 3, 1, 2, 1, 1, 4, -1, 0, 10, true},
+	"entgov":  {12, 30, 3, 0, 0, 0, 0, 0, 0, 0, 0, 1, 0, 0, 0, 0, 2, 0, 0, 10, true},
 	"genesis": {8, 12, 3, 7, 16, 5, 7, 8, 4, 3, 3, 2, 1, 2, 1, 1, 6, -1, 0, 3, true},
-	"efund":  {16, 26, 4, 8, 22, 6, 0, 0, 0, 0, 0, 1, 0, 1, 2, 0, 0, -1, 2, 0, true},
-	"reg":    {2, 3, 1, 10, 30, 12, 0, 0, 0, 0, 0, 2, 3, 5, 1, 1, 5, -1, 0, 0, true},
-	"reggov": {0, 0, 0, 8, 30, 16, 0, 0, 0, 0, 0, 1, 2, 4, 0, 0, 2, 12, 0, 0, true},
-	"stream": {1, 1, 0, 1, 1, 0, 12, 18, 8, 6, 5, 4, 2, 3, 1, 1, 5, -1, 0, 0, true},
-	"strgov": {0, 0, 0, 0, 0, 0, 12, 22, 8, 6, 5, 2, 0, 0, 0, 0, 2, 3, 0, 0, true},
-	"fees":   {5, 6, 2, 8, 14, 8, 1, 1, 0, 0, 0, 2, 3, 4, 3, 0, 6, -1, 6, 0, true},
+	"efund":   {16, 26, 4, 8, 22, 6, 0, 0, 0, 0, 0, 1, 0, 1, 2, 0, 0, -1, 2, 10, true},
+	"reg":     {2, 3, 1, 10, 30, 12, 0, 0, 0, 0, 0, 2, 3, 5, 1, 1, 5, -1, 0, 10, true},
+	"reggov":  {0, 0, 0, 8, 30, 16, 0, 0, 0, 0, 0, 1, 2, 4, 0, 0, 2, 12, 0, 10, true},
+	"stream":  {1, 1, 0, 1, 1, 0, 12, 18, 8, 6, 5, 4, 2, 3, 1, 1, 5, -1, 0, 10, true},
+	"strgov":  {0, 0, 0, 0, 0, 0, 12, 22, 8, 6, 5, 2, 0, 0, 0, 0, 2, 3, 0, 10, true},
+	"fees":    {5, 6, 2, 8, 14, 8, 1, 1, 0, 0, 0, 2, 3, 4, 3, 0, 6, -1, 6, 10, true},
 }
 
 type history struct {
-	focus   string
-	aimPair *[2]int // a stream the current block is aimed at (block time placed around its zero time)
-	c       *chain
-	r       *rng
-	w       weights
-	obs     *observer
-	items   []string // Coq titem terms
-	kinds   map[string]int
-	results map[string]int
-	nOps    int
-	nTx     int
-	nOk     int
-	pending []pendingProposal
-	flags   map[string]int // counters of interesting things that happened (pruning, minting, ...)
-	mon     *monitors
-	halted  bool
-	lastObs []string
+	focus        string
+	aimPair      *[2]int // a stream the current block is aimed at (block time placed around its zero time)
+	c            *chain
+	r            *rng
+	w            weights
+	obs          *observer
+	items        []string // Coq titem terms
+	kinds        map[string]int
+	results      map[string]int
+	nOps         int
+	nTx          int
+	nOk          int
+	pending      []pendingProposal
+	flags        map[string]int // counters of interesting things that happened (pruning, minting, ...)
+	mon          *monitors
+	halted       bool
+	lastObs      []string
+	futureSubmit int  // one in so many BEACON records carries a submit time far in the future (0 = default 6)
 	reimportNext bool // the chain was exported and re-imported just before the next operation
+	carry        [][2]string
 	shadow       *chain // the application the state was exported from, run in lockstep after a re-import
 	shadowLeft   int
 }
@@ -104,8 +106,31 @@ func newHistory(c *chain, r *rng, w weights) *history {
 	return h
 }
 
+func (h *history) futureOneIn() int {
+	if h.futureSubmit > 0 {
+		return h.futureSubmit
+	}
+	return 6
+}
+
 func (h *history) item(op string, res int, hasRes bool, ctx sdk.Context) []string {
 	obs := h.obs.snapshot(ctx)
+	if len(h.carry) > 0 {
+		// deltas flushed just before an export + import (they belong to the state before it): deliver them with this
+		// item unless it reports the same query anew
+		again := map[string]bool{}
+		for _, d := range h.obs.deltas {
+			again[d[0]] = true
+		}
+		var pre []string
+		for _, d := range h.carry {
+			if !again[d[0]] {
+				pre = append(pre, "("+d[0]+", "+d[1]+")")
+			}
+		}
+		obs = append(pre, obs...)
+		h.carry = nil
+	}
 	defer func() { h.lastObs = obs }()
 	rs := "None"
 	if hasRes {
@@ -340,6 +365,8 @@ func (h *history) genMsg(depth int) mmsg {
 				key = uint64(c.now.Unix()) + uint64(r.intn(100))
 				if r.chance(1, 25) {
 					key = h.randU64Edge()
+				} else if r.chance(1, h.futureOneIn()) {
+					key = 4102444800 + uint64(r.intn(1<<30)) // a submit time far in the future of any wall clock (2100+)
 				}
 			}
 		} else if r.chance(1, 6) {
@@ -757,7 +784,7 @@ func (h *history) genTx(forCheck bool) genTx {
 	sigOK := true
 	seqDelta := 0
 	switch r.intn(40) {
-	case 0:
+	case 0, 2:
 		keys[r.intn(len(keys))] = c.govActor
 		sigOK = false
 	case 1:
@@ -1052,9 +1079,6 @@ func (h *history) block() bool {
 	if r.chance(1, 40) {
 		dt = time.Duration(1+r.intn(300)) * 24 * time.Hour
 	}
-	if h.w.reimportEvery > 0 && h.nOps > 8 && r.chance(1, h.w.reimportEvery) {
-		h.doReimport()
-	}
 	h.aimPair = nil
 	if h.w.strClaim > 4 && r.chance(1, 3) {
 		// place this block just before / in the same second as / at / just after the advertised zero time of a live stream
@@ -1141,6 +1165,12 @@ func (h *history) block() bool {
 	}
 	h.item("OpCommit", 0, false, c.ctxFor(true))
 	h.mon.afterCommit()
+	// export + import right after Commit, when the check state equals the committed state (ExportAppStateAndValidators
+	// reads the check state, as `und export` does on a stopped node where no CheckTx has run since the last commit)
+	if h.w.reimportEvery > 0 && h.nOps > 8 && r.chance(1, h.w.reimportEvery) {
+		h.doReimport()
+		c = h.c
+	}
 	for i := 0; i < h.w.checkPerBlock; i++ {
 		if r.chance(2, 3) {
 			h.doCheck()
@@ -1152,8 +1182,8 @@ func (h *history) block() bool {
 // doReimport: export at the block boundary, start a fresh application from the document, keep going on it.
 // The old application stays alive for two blocks as a shadow: the same transactions must have the same effects.
 func (h *history) doReimport() {
-	before := h.obs.snapshot(h.c.committedCtx()) // flush pending deltas so that the next snapshot shows only import effects
-	_ = before
+	h.obs.snapshot(h.c.committedCtx()) // flush pending deltas so that the next snapshot shows only import effects
+	h.carry = append(h.carry, h.obs.deltas...)
 	old, problems := h.c.reimport()
 	for _, p := range problems {
 		class := 0
